@@ -53,6 +53,10 @@ def compare_trace(prop, trace, res_a, res_b, tally, stats):
         first, last = span
         c = k3_check.StepCmp(i, st, pre, res['float'][last], res['rat'][last], tally,
                              collect_hist(res['float'], first, last), collect_hist(res['rat'], first, last))
+        if prop in ('C01', 'C02', 'C03') and st['op'][0] in ('pfmark', 'pftxn', 'pfsub', 'pfwd') and st['out'] != res['float'][last].get('out'):
+            stats['validation_disagreement_skipped'] += 1      # accepted/refused differs: that is C15's finding
+            pre = st['post']
+            continue
         if prop == 'C02':
             fa, la = span_a
             c_a = k3_check.StepCmp(i, st, pre, res_a['float'][la], res_a['rat'][la], tally)
